@@ -49,5 +49,6 @@ pub mod write_task {
 pub mod backpressure {
     pub use crate::backpressure::{
         BackpressureStrategy, InvalidKey, MapBackpressure, SupplyBackpressure, ValueBackpressure,
+        VerifMapOperationQueue as MapOperationQueue,
     };
 }
